@@ -30,6 +30,13 @@ BUILTIN_EXC = {
 }
 
 
+def _forall_pat(vs, body, pat):
+    try:
+        return z3.ForAll(vs, body, patterns=[pat])
+    except z3.Z3Exception:
+        return z3.ForAll(vs, body)
+
+
 class Frame:
     def __init__(self, func: FuncInfo | None, module: ModuleInfo, contract=None, parent_env=None):
         self.func = func
@@ -172,15 +179,14 @@ class ExecutorBase:
                 st.assume(z3.Implies(Val.is_VRef(term), H.list_len(st, RID(term)) >= 0))
             if n == "list" and ty.args and _depth < 1:
                 # container typing: every element satisfies the element type (A-TYPES, re-assumed at each read)
-                j = z3.Int(st.fresh_name("tj"))
+                j = z3.Int("ty!j")
                 el = z3.Select(st.read("$items", RID(term)), j)
                 ep = self.type_pred(el, ty.args[0], fr, _depth + 1)
                 if not z3.is_true(ep):
                     st.assume(z3.Implies(Val.is_VRef(term),
-                                         z3.ForAll([j], z3.Implies(z3.And(0 <= j, j < H.list_len(st, RID(term))), ep),
-                                                   patterns=[el])))
+                                         _forall_pat([j], z3.Implies(z3.And(0 <= j, j < H.list_len(st, RID(term))), ep), el)))
             if n == "dict" and len(ty.args) == 2 and _depth < 1:
-                k = z3.Const(st.fresh_name("tk"), Val)
+                k = z3.Const("ty!k", Val)
                 el = z3.Select(st.read("$dval", RID(term)), k)
                 ep = z3.And(self.type_pred(el, ty.args[1], fr, _depth + 1), self.type_pred(k, ty.args[0], fr, _depth + 1))
                 if not z3.is_true(z3.simplify(ep)):
